@@ -42,11 +42,12 @@ type E2ETrace struct {
 	MidCliX int        `json:"midCliX"`
 }
 
-func recOfDgram(d memnet.Dgram, dir string, up, down []byte) MsgRec {
+func recOfDgram(d memnet.Dgram, dir string, up []byte, downLen int) MsgRec {
 	r := MsgRec{Dir: dir, Code: d.Code, B1: blkOf(d.Opts, message.Block1), B2: blkOf(d.Opts, message.Block2), Size1: -1, Size2: -1, PLen: len(d.Payload), Pay: []int{0, 0}}
 	body := up
 	if dir == "s2c" {
-		body = down
+		r.Ver = etagOf(d.Opts)
+		body = DownBody(downLen, r.Ver)
 	}
 	if len(d.Payload) > 0 {
 		ps := Pieces(d.Payload, body)
@@ -71,9 +72,16 @@ func recOfDgram(d memnet.Dgram, dir string, up, down []byte) MsgRec {
 	return r
 }
 
-func deliveryOf(m *pool.Message, body []byte) Delivery {
+// deliveryOf: body = the request body for a delivery to the server application; nil for a response body handed to
+// the client application (pieces of the nver representations of length downLen produced so far)
+func deliveryOf(m *pool.Message, body []byte, downLen, nver int) Delivery {
 	b, _ := m.ReadBody()
-	d := Delivery{Pieces: Pieces(b, body), Len: len(b), Opts: []int{}, CF: -1}
+	d := Delivery{Len: len(b), Opts: []int{}, CF: -1}
+	if body != nil {
+		d.Pieces = Pieces(b, body)
+	} else {
+		d.Pieces = PiecesV(b, downLen, nver)
+	}
 	for _, o := range m.Options() {
 		d.Opts = append(d.Opts, int(o.ID))
 	}
@@ -89,7 +97,7 @@ func deliveryOf(m *pool.Message, body []byte) Delivery {
 // RunUDP runs one exchange between two real udp connections with a fault schedule on the datagrams.
 func RunUDP(p Params, acts []Act) E2ETrace {
 	tr := E2ETrace{Op: "e2e", Tr: "udp", P: p, Acts: acts, Applied: make([]bool, len(acts)), Msgs: []MsgRec{}, App: []Delivery{}, Got: []Delivery{}, Ret: "none"}
-	up, down := Body(p.L, 1), Body(p.L2, 2)
+	up := Body(p.L, 1)
 	var mu sync.Mutex
 	mk := func(szx, mms int, handler udpclient.HandlerFunc) *conns.UDP {
 		u := conns.NewUDP(func(cfg *udpclient.Config) {
@@ -109,13 +117,14 @@ func RunUDP(p Params, acts []Act) E2ETrace {
 			return // not a request (e.g. a stray error message of the peer): nothing is "delivered as a request body"
 		}
 		mu.Lock()
-		tr.App = append(tr.App, deliveryOf(r, up))
+		tr.App = append(tr.App, deliveryOf(r, up, 0, 0))
+		v := len(tr.App) // every execution produces a new representation
 		mu.Unlock()
 		code := codes.Content
 		if r.Code() == codes.POST || r.Code() == codes.PUT {
 			code = codes.Changed
 		}
-		_ = w.SetResponse(code, message.AppOctets, bytes.NewReader(down), message.Option{ID: message.MaxAge, Value: []byte{7}})
+		_ = w.SetResponse(code, message.AppOctets, bytes.NewReader(DownBody(p.L2, v)), message.Option{ID: message.MaxAge, Value: []byte{7}}, message.Option{ID: message.ETag, Value: []byte{byte(v)}})
 	})
 	C := mk(p.CS, p.CMMS, nil)
 	defer S.Close()
@@ -132,7 +141,7 @@ func RunUDP(p Params, acts []Act) E2ETrace {
 			sent = append(sent, raw)
 			sentDir = append(sentDir, "c2s")
 			if d, err := memnet.Parse(raw); err == nil {
-				tr.Msgs = append(tr.Msgs, recOfDgram(d, "c2s", up, down))
+				tr.Msgs = append(tr.Msgs, recOfDgram(d, "c2s", up, p.L2))
 			}
 		}
 		for _, raw := range S.Sess.Out(seenS) {
@@ -141,7 +150,7 @@ func RunUDP(p Params, acts []Act) E2ETrace {
 			sent = append(sent, raw)
 			sentDir = append(sentDir, "s2c")
 			if d, err := memnet.Parse(raw); err == nil {
-				tr.Msgs = append(tr.Msgs, recOfDgram(d, "s2c", up, down))
+				tr.Msgs = append(tr.Msgs, recOfDgram(d, "s2c", up, p.L2))
 			}
 		}
 	}
@@ -183,7 +192,7 @@ func RunUDP(p Params, acts []Act) E2ETrace {
 				return
 			}
 			tr.Ret, tr.RetCode = "ok", int(resp.Code())
-			tr.Got = append(tr.Got, deliveryOf(resp, down))
+			tr.Got = append(tr.Got, deliveryOf(resp, nil, p.L2, len(tr.App)))
 		}()
 	}
 	tick := 0
@@ -253,7 +262,7 @@ func RunUDP(p Params, acts []Act) E2ETrace {
 // RunTCP runs one fault-free exchange between two real tcp connections (BERT when SZX 7).
 func RunTCP(p Params) E2ETrace {
 	tr := E2ETrace{Op: "e2e", Tr: "tcp", P: p, Acts: []Act{}, Applied: []bool{}, Msgs: []MsgRec{}, App: []Delivery{}, Got: []Delivery{}, Ret: "none"}
-	up, down := Body(p.L, 1), Body(p.L2, 2)
+	up := Body(p.L, 1)
 	var mu sync.Mutex
 	mk := func(szx, mms int, handler tcpclient.HandlerFunc) *conns.TCP {
 		return conns.NewTCP(func(cfg *tcpclient.Config) {
@@ -271,13 +280,14 @@ func RunTCP(p Params) E2ETrace {
 			return // not a request (e.g. a stray error message of the peer): nothing is "delivered as a request body"
 		}
 		mu.Lock()
-		tr.App = append(tr.App, deliveryOf(r, up))
+		tr.App = append(tr.App, deliveryOf(r, up, 0, 0))
+		v := len(tr.App) // every execution produces a new representation
 		mu.Unlock()
 		code := codes.Content
 		if r.Code() == codes.POST || r.Code() == codes.PUT {
 			code = codes.Changed
 		}
-		_ = w.SetResponse(code, message.AppOctets, bytes.NewReader(down), message.Option{ID: message.MaxAge, Value: []byte{7}})
+		_ = w.SetResponse(code, message.AppOctets, bytes.NewReader(DownBody(p.L2, v)), message.Option{ID: message.MaxAge, Value: []byte{7}}, message.Option{ID: message.ETag, Value: []byte{byte(v)}})
 	})
 	C := mk(p.CS, p.CMMS, nil)
 	defer S.Close()
@@ -306,11 +316,11 @@ func RunTCP(p Params) E2ETrace {
 			return
 		}
 		tr.Ret, tr.RetCode = "ok", int(resp.Code())
-		tr.Got = append(tr.Got, deliveryOf(resp, down))
+		tr.Got = append(tr.Got, deliveryOf(resp, nil, p.L2, len(tr.App)))
 	}()
 	recF := func(f conns.TFrame, dir string) {
 		d := memnet.Dgram{Code: f.Code, Token: f.Token, Opts: f.Opts, Payload: f.Payload}
-		tr.Msgs = append(tr.Msgs, recOfDgram(d, dir, up, down))
+		tr.Msgs = append(tr.Msgs, recOfDgram(d, dir, up, p.L2))
 	}
 	// relay until nothing moves for a while or the call returned
 	deadline := time.Now().Add(4 * time.Second)
